@@ -655,6 +655,11 @@ impl<'tcx> Ex<'tcx> {
         let fty = func.ty(&body.local_decls, tcx);
         match fty.kind() {
             ty::FnDef(did, args) => {
+                for a in args.iter() {
+                    if let ty::GenericArgKind::Type(t) = a.kind() {
+                        self.note_layout(env, t);
+                    }
+                }
                 let mut f: Vec<(&'static str, J)> = vec![
                     ("def", jstr(canon(tcx, *did))),
                     ("krate", jstr(tcx.crate_name(did.krate).as_str())),
